@@ -115,7 +115,7 @@ func fullMixProfile(c *core.Ctx) *sgen.Profile {
 		MaxDepth: 3, MinProps: 1, MaxProps: 8, MaxDefs: 4, ArrayDepth: 3,
 		WString: 5, WInteger: 4, WNumber: 4, WBoolean: 2, WObject: 4, WArray: 4, WEnum: 3, WRef: 4, WAny: 1, WNull: 1, WAllOf: 1, WAnyOf: 1, WMap: 1,
 		PConstraint: 0.45, PNullable: 0.2, PRequired: 0.4, PDefault: 0.2, PFormat: 0.15, PDesc: 0.3, PAdditional: 0.15,
-		HostileText: true, InlineItemConstraints: true, MixedEnums: true,
+		HostileText: true, InlineItemConstraints: true, MixedEnums: true, UntypedAdditional: true,
 		Avoid: c.Avoid, Excluded: c.ExcludedMap(), Sat: docs.Satisfiable,
 	}
 }
